@@ -1245,6 +1245,15 @@ func (s *levelsController) fillTablesL0ToLbase(cd *compactDef) bool {
 	if len(top) == 0 {
 		return false
 	}
+	// The base level in cd.t was computed by pickCompactLevels, and other compactors may have
+	// finished since: a level above it can hold tables by now. Do not jump over them (their
+	// versions would end up above the newer ones compacted here); the next round of this
+	// compactor computes the targets again.
+	for _, lh := range s.levels[1:cd.nextLevel.level] {
+		if lh.numTables() > 0 {
+			return false
+		}
+	}
 
 	var out []*table.Table
 	if len(cd.dropPrefixes) > 0 {
